@@ -119,6 +119,9 @@ func (r *run) opAdd() {
 	r.step("%s", p)
 	r.ah.Add(p.call)
 	before := r.contentKey()
+	bp, bq := r.pool.Stats()
+	r.overBefore = bp > int(r.cfg.GlobalSlots) || bq > int(r.cfg.GlobalQueue)
+	r.countBefore = bp + bq
 	errs := r.submit(p)
 	synctest.Wait()
 	r.judgeAdd(p, errs, before)
@@ -187,7 +190,16 @@ func (r *run) judgeAdd(p *addPlan, errs []error, before string) {
 		}
 	}
 	r.m.flagLimits()
-	if allRejected && before != r.contentKey() {
+	if ap, aq := r.pool.Stats(); allRejected && before != r.contentKey() && r.overBefore && ap+aq < r.countBefore &&
+		ap <= int(r.cfg.GlobalSlots) && aq <= int(r.cfg.GlobalQueue) {
+		// Not the submission's doing: the pool was above a global limit before the call (a price
+		// change or a head change had demoted transactions into the queue without a reorganisation;
+		// limits are enforced by the reorganisation every submission ends with) and the call only
+		// brought it back under. The property's "without changing the pool" is about the refused
+		// submission itself. The model adopts the pool's content.
+		r.res.Probe("refused-submission-ran-the-deferred-truncation")
+		r.m.hit("refused-but-changed")
+	} else if allRejected && before != r.contentKey() {
 		// soft: the model adopts the pool's content below (the pool was full), the run goes on
 		cause := errName(errs[0])
 		for _, e := range errs {
